@@ -142,7 +142,7 @@ def scalars(tier):
 
 SYNTAX = ['"', '\\', '/', ',', ':', '[', ']', '{', '}', '\n', '\r', ' ', "'", '#', '\t']
 NUMBERS = [0, -0.0, 1, -1, 2 ** 31, 2 ** 53 - 1, 2 ** 53, 2 ** 53 + 1, 2 ** 63, 2 ** 64, 10 ** 30, 5e-324, 1.7976931348623157e308, 0.1, 1e16, 1e22,
-           -2 ** 63, 1.5, 3.0]
+           -2 ** 63, 1.5, 3.0, float('nan'), float('inf'), float('-inf')]
 CSV_CELLS = ['', 'a', ',', '"', '\n', ' a ', 'a,b', '""', 'a\nb', '\r', "'"]
 YAML_WORDS = ['true', 'True', 'TRUE', 'false', 'no', 'No', 'NO', 'yes', 'on', 'off', 'null', 'Null', 'NULL', 'y', 'n', 'nan', 'inf', 'none']
 
